@@ -141,6 +141,21 @@ def stepLine (s : S) (req resp : List String) : S × List String :=
         ({ s with dump := ts, pending := none, nontrivial := nt }, d1 ++ mons ++ scribbleLeak ts)
     | _ => (s, ["DIFF parse bad dump"])
   | "mismatch" :: prop :: rest => (s, [s!"MON {prop} " ++ " ".intercalate rest])
+  | "#" :: _ => (s, [])
+  | ["adopt"] =>
+    -- pipeline kill: the database content found after reopening becomes the model's state; every stored
+    -- task must be well-formed on its own (C12's per-task part), ids distinct
+    match resp with
+    | n :: rest =>
+      match n.toNat?.bind (fun n => decTasks n rest) with
+      | none => (s, ["DIFF parse bad adopt"])
+      | some (ts, _) =>
+        let bad := ts.flatMap (fun t => (Mon.c12Task t).map ("MON C13 (pipeline) after the kill: " ++ ·))
+        let dup := if (ts.map (·.id)).eraseDups.length == ts.length then [] else
+          ["MON C13 (pipeline) after the kill two stored tasks share one id"]
+        ({ s with model := { tasks := ts }, dump := ts, pending := none,
+                  nontrivial := s.nontrivial || ts.any (·.state != .scheduled) }, bad ++ dup)
+    | _ => (s, ["DIFF parse bad adopt"])
   | ["sav"] => (s, [])
   | "crash" :: rest =>
     -- the process was killed; `rest` is the request that had not been acknowledged ("-" = none)
